@@ -337,6 +337,18 @@ def r3(ctx):
                 ctx.ob(wcf.qual, "one-based:%s" % u(a), ok1, wcf.loc(p_), "%s is printed 1-based like POS in the VCF" % u(a) if ok1 else "%s prints the internal 0-based position: the entry does not match POS of the VCF record" % u(a))
 
 
+def check_block_lookup(ctx, fr):
+    params = util.params_of(fr.node)
+    tv, comps, positions, costs = params[:4]
+    p2i = util.single_def(fr.node, "position_to_index")
+    ok = p2i is not None and isinstance(p2i, ast.DictComp) and u(p2i.generators[0].iter) == "enumerate(%s)" % positions and [u(t) for t in p2i.generators[0].target.elts] == [u(p2i.value), u(p2i.key)]
+    ctx.ob(fr.qual, "position-index-map", ok, fr.loc(), "position_to_index maps each accessible position to its index" if ok else "position_to_index is not {pos: i for i, pos in enumerate(positions)}")
+    for name, src in (("block_transmission_vector", tv), ("block_recomb_cost", costs)):
+        d = util.single_def(fr.node, name)
+        ok = d is not None and isinstance(d, ast.ListComp) and len(d.generators) == 1 and u(d.generators[0].iter) == "block" and not d.generators[0].ifs and u(d.elt) == "%s[position_to_index[%s]]" % (src, u(d.generators[0].target))
+        ctx.ob(fr.qual, "per-position-lookup:%s" % name, ok, fr.loc(), "%s[k] is %s at the index of block[k]" % (name, src) if ok else "%s is %s: not a per-position lookup through position_to_index, so with interleaved phase sets values are attributed to the wrong positions" % (name, u(d) if d is not None else "?"))
+
+
 def _stmt_parent(node):
     n = node
     while n is not None and not isinstance(n, ast.stmt):
@@ -366,6 +378,8 @@ def r4(ctx):
         srt = any(isinstance(c, ast.Call) and u(c.func) == "%s.sort" % blockvar for c in ast.walk(outer[0])) if outer else False
         ok = ok and srt
     ctx.ob(fr.qual, "event-between-consecutive-members-of-one-set", ok, fr.loc(e), "an event is reported between %s and %s of one sorted component" % (u(a0), u(a1)) if ok else "event positions %s, %s are not consecutive members of one sorted component" % (u(a0), u(a1)))
+    # per-block values are looked up by position, not taken as a contiguous slice (components interleave)
+    check_block_lookup(ctx, fr)
     # decoding: father = value % 2, mother = value // 2
     names = ["transmitted_hap_father1", "transmitted_hap_father2", "transmitted_hap_mother1", "transmitted_hap_mother2"]
     exprs = [u(x) for x in e.args[2:6]]
@@ -406,4 +420,4 @@ RULES = [
     ("C20.R3", "genotype change list = GT stores of a different genotype", r3),
     ("C20.R4", "recombinations between consecutive members of one set; decoding", r4),
 ]
-FLOORS = {"C20.R1": 14, "C20.R2": 8, "C20.R3": 6, "C20.R4": 7}
+FLOORS = {"C20.R1": 14, "C20.R2": 8, "C20.R3": 6, "C20.R4": 10}
